@@ -24,8 +24,8 @@ LEVEL_NOTE = ("numba prange code is not instrumentable: schedule_control = none 
               "inconclusive, not a violation; graphs need at least one node (find_ND_labels(i, j, 0) raises AssertionError: the "
               "statement speaks of graphs between peaks); the code that builds the graph from overlaps (pks_table_from_scan) is "
               "not part of the statement, which takes the graph as given; every thread count of the list must have run or the "
-              "verdict is inconclusive. A table without a single pair cannot be created (pks_table.create asks for 0 bytes of shared "
-              "memory, ValueError): such tables are skipped and counted unless VERIF_PENDING_C15_EDGELESS_TABLE is set.")
+              "verdict is inconclusive. A table without a single pair could not be created on the pinned tree (pks_table.create asked for 0 bytes of shared "
+              "memory, ValueError; repaired in /repo): such tables are part of the workload.")
 
 RULE = ("a case = (graph class, nodes, edges, thread count); non-trivial = at least one component with >= 3 nodes and >= 2 "
         "components; distinct = (class, nodes, hash of edges, threads)")
@@ -275,15 +275,16 @@ def table_case(run, seed, idx, mods, big=False):
         # edges: within scan (ii) and to the next scan (ij)
         m_ii = r.integers(0, 30, nscans)
         m_ij = r.integers(0, 30, nscans)
+    if idx % 20 == 13 and not big:
+        m_ii[:] = 0                      # a table in which no 2D peak overlaps any other ("no edges")
+        m_ij[:] = 0
     N = int(npk.sum())
     m_ij[-1] = 0
     npktab = np.array([npk, m_ii, m_ij]).T.astype(np.int64)
     if int(m_ii.sum() + m_ij.sum()) == 0:
-        # a table without a single pair cannot be created at all: pks_table.create asks for a shared memory block of 0 bytes
-        # (ValueError).  Pending decision (hard rule 2): skipped unless VERIF_PENDING_C15_EDGELESS_TABLE is set.
-        run.count("tables_without_pairs_skipped")
-        if not os.environ.get("VERIF_PENDING_C15_EDGELESS_TABLE"):
-            return
+        # a table without a single pair: the pinned tree could not create it at all (pks_table.create asked for a shared
+        # memory block of 0 bytes, ValueError); repaired in /repo, always exercised
+        run.count("tables_without_pairs")
         try:
             with contextlib.redirect_stdout(io.StringIO()):
                 tab = properties.pks_table(npk=npktab)
@@ -486,6 +487,7 @@ def check(run, replay=None):
     run.extra["thread_counts"] = [t for t in THREADS if t <= numba.config.NUMBA_NUM_THREADS]
     run.require_counter("labelling_runs", 500)
     run.require_counter("merged_peaks_checked", 200)
+    run.require_counter("tables_without_pairs", 2)
     for nt in THREADS:
         # a thread count that could not be set (NUMBA_NUM_THREADS too small) leaves the schedule quantifier unexplored
         run.require_counter("labelling_threads_%d" % nt, 50)
